@@ -47,6 +47,7 @@ Clauses(e) ==
           <<"C12.span", pole \/ SpanOK(e.mu)>>,
           <<"C12.ccw", pole \/ CCW(e.g)>>,
           <<"C12.simple", pole \/ Len(e.g) > 36 \/ Simple(e.g)>>,
+          <<"C12.norepeat", Len(e.hx) # m \/ Cardinality({ e.hx[i] : i \in 1..m }) = m>>,
           <<"C12.corners", s = 0 \/ Len(e.hx) # m \/
                \E rho \in 0..m-1 : \A k \in 0..nv-1 : e.hx[((rho + k * s) % m) + 1] = e.base[k + 1]>>,
           <<"C12.corners.once", s = 0 \/ Len(e.hx) # m \/
